@@ -826,12 +826,22 @@ func cprngRule(P *Program, R *Report, rule string) {
 	if fn == nil {
 		return
 	}
+	// (in Read, or in an unexported helper it reserves through - seen with the helper's parameters bound)
 	var atomics []*ssa.Call
-	for _, c := range callsIn(fn) {
-		if strings.HasPrefix(calleeName(c), "sync/atomic.") {
-			atomics = append(atomics, c.(*ssa.Call))
+	var addD, nD string
+	var nA Affine
+	deepVisit(P, fn, 1, func(g *ssa.Function) {
+		for _, c := range callsIn(g) {
+			if strings.HasPrefix(calleeName(c), "sync/atomic.") {
+				cc := c.(*ssa.Call)
+				atomics = append(atomics, cc)
+				if len(cc.Call.Args) == 2 {
+					addD, nD = desc(cc), desc(cc.Call.Args[1])
+					nA, _ = affineOf(cc.Call.Args[1])
+				}
+			}
 		}
-	}
+	})
 	if len(atomics) != 1 || calleeName(atomics[0]) != "sync/atomic.AddUint64" {
 		names := []string{}
 		for _, a := range atomics {
@@ -842,7 +852,7 @@ func cprngRule(P *Program, R *Report, rule string) {
 	}
 	add := atomics[0]
 	R.ok(rule, "common.(*CPRNG).Read:single-reservation", "Read reserves its blocks with exactly one atomic.AddUint64")
-	n, _ := affineOf(add.Call.Args[1])
+	n := nA
 	R.decide(rule, "common.(*CPRNG).Read:reserved-count", "the reserved count is (len(buf)-1)/16 + 1", n.String() == "(len(arg#1)-1)/16+1" || n.String() == "1+(len(arg#1)-1)/16", "got "+n.String(), P.Pos(add.Pos()))
 	// iv0 = add - nBlocks ; plaintext index phi(iv0, iv+1)
 	var ivPhi *ssa.Phi
@@ -859,6 +869,10 @@ func cprngRule(P *Program, R *Report, rule string) {
 	if ivPhi != nil {
 		init, step := false, false
 		for _, e := range ivPhi.Edges {
+			// the start value, computed here or handed back by the reserving helper
+			if desc(e) == "("+addD+"-"+nD+")" {
+				init = true
+			}
 			if b, isB := e.(*ssa.BinOp); isB {
 				if b.Op == token.SUB && b.X == ssa.Value(add) && b.Y == add.Call.Args[1] {
 					init = true
